@@ -11,6 +11,18 @@ CHECKS = {
  "C10": dict(technique="bounded exhaustive enumeration of input strings under 3 operator configurations, compared token-by-token with a reference lexer (model) + tiling invariants",
    text="Every string of <= L fragments under three operator sets (built-ins, registered symbolic chains, registered word/non-identifier operators); the engine's token stream (tokenize hook) must satisfy the tiling invariants and equal the reference lexer's stream; every model trace is compared with the implementation.",
    note="Operator sets as listed in the evidence; non-prefix-closed symbolic operators are outside the documented rule; rust_decimal's text parser trusted for digit strings.", design="§4 C10"),
+ "C02": dict(technique="bounded exhaustive enumeration of expression trees and token sequences, engine AST compared with a reference precedence-climbing parser (model)",
+   text="Every AST with <= 2 (thorough 3) infix nodes over all 32 built-in infix operators in every shape, every AST with <= 3 operator nodes over 15 representative infix operators plus `not OP`, prefix, postfix, conditional, call, list, map and statement chains, printed by the model printer (minimal and full parentheses), and every token sequence of <= 5 (6) tokens the reference parser accepts: the engine must return exactly the model's AST. The model's operator table is the documented one.",
+   note="Grouping decisions are pairwise, so 3 nested nodes cover every outer/middle/inner combination; larger expressions are not enumerated. The greedy reading of the optional ';' is assumed.", design="§4 C02"),
+ "C05": dict(technique="bounded exhaustive enumeration of token sequences, fragment strings and single-edit corruptions, judged by a reference recogniser (model); reject-side agreement",
+   text="Every sequence of <= 5 (6) tokens over 28 spellings (space-separated and glued), <= 6 (8) over a 15-spelling delimiter/separator sub-alphabet, every string of <= 4 (5) fragments, and every single-token / single-character corruption of the valid program set: whatever the reference grammar rejects the engine must reject.",
+   note="Inputs longer than the bound and corruptions of distance > 1 are not enumerated; the reference grammar is lenient exactly where the property is (optional ';', one trailing comma in list/map).", design="§4 C05"),
+ "C11": dict(technique="bounded exhaustive enumeration of layouts (whitespace at every token boundary, redundant parentheses at every subexpression) of an enumerated program set; metamorphic AST equality",
+   text="For every program of the shared tree set: every token boundary x every whitespace string of the tier, all boundaries at once, leading/trailing; every subexpression wrapped in 1..3 redundant pairs and every pair of subexpressions wrapped once. The AST must equal that of the original text.",
+   note="Programs of <= 3 operator nodes; whitespace strings of length <= 2; paren multiplicity <= 3.", design="§4 C11"),
+ "C12": dict(technique="bounded exhaustive enumeration of parser-produced ASTs (incl. forced shapes via full parenthesisation, mirrored children) and of operator re-registration histories; round-trip oracle",
+   text="For every AST the parser returns on the program set (minimal, full and mirrored-full renderings) and on every accepted token sequence of <= 5 (6) tokens: parse(expr(t)) == t and expr() is idempotent. Plus every history of <= 3 re-registrations of an infix operator (fresh process each) with the round trip after each step.",
+   note="Names are not operator words; trees of <= 3 operator nodes; re-registration histories of one operator over 4 (precedence, associativity) settings.", design="§4 C12"),
 }
 
 def main():
